@@ -93,6 +93,16 @@ def make_types(rng):
         return f"{v:03b}"
     add(PT("ENUM_T", ["pt", S("ENUM_T"), ["enum"] + [[f"i{k}", S(f"STATE_{k}")] for k in keys],
                       ["int", "3", S("unsigned"), S(MSB), NOCAL]], 3, en))
+    # an enumerated field the children of a container can be told apart on: by label (calibrated) or by number (raw)
+    def sele(rng, ctrl_val=None):
+        v = rng.getrandbits(3) if ctrl_val is None else ctrl_val % 8
+        return f"{v:03b}"
+    add(PT("SELE_T", ["pt", S("SELE_T"), ["enum"] + [[f"i{k}", S(f"S{k}")] for k in range(8)],
+                      ["int", "3", S("unsigned"), S(MSB), NOCAL]], 3, sele, control=True))
+    # several encoded values with one label (legal: "the label of a value" is a function, not an injection): the raw value
+    # still tells them apart, packet after packet
+    add(PT("ENUMDUP_T", ["pt", S("ENUMDUP_T"), ["enum", ["i0", S("IDLE")], ["i1", S("BUSY")], ["i2", S("BUSY")], ["i3", S("IDLE")]],
+                         ["int", "2", S("unsigned"), S(MSB), NOCAL]], 2, lambda rng, c=None: rbits(rng, 2)))
     add(PT("BOOL_T", ["pt", S("BOOL_T"), "bool", ["int", "1", S("unsigned"), S(MSB), NOCAL]], 1,
            lambda rng, c=None: rng.choice("01")))
     # a boolean on a text encoding: true when the buffer is not empty
@@ -350,8 +360,9 @@ class Defn:
         # the selector the children are distinguished on: the APID at the top, else a fresh small field of this container
         if depth > 0:
             sel = self._pname("SEL")
-            c.entries.append(("p", sel, self.types["U3_T"]))
-            selector = (sel, 3)
+            self_enum = rng.random() < 0.25
+            c.entries.append(("p", sel, self.types["SELE_T" if self_enum else "U3_T"]))
+            selector = (sel, 3, self_enum)
         self._align(c)
         c.selector = selector
         from harness.props import c06
@@ -360,7 +371,11 @@ class Defn:
             ch = Cont(self._pname("C"), abstract=rng.random() < 0.3, base=c.name)
             k = vals[i]
             style = rng.random()
-            if style < 0.7:
+            if len(selector) > 2 and selector[2]:
+                # an enumerated selector: the label when the calibrated value is compared, the number when the raw one is
+                uc = rng.random() < 0.5
+                ch.criteria = [c06.cmp_sx(selector[0], "==", f"S{k}" if uc else str(k), uc)]
+            elif style < 0.7:
                 ch.criteria = [c06.cmp_sx(selector[0], "==", str(k), rng.random() < 0.8)]
             elif style < 0.8:
                 ch.criteria = [c06.cmp_sx(selector[0], ">=", str(k), True), c06.cmp_sx(selector[0], "<=", str(k), True)]
@@ -371,7 +386,7 @@ class Defn:
             else:
                 # deliberately overlapping with a sibling now and then
                 ch.criteria = [c06.cmp_sx(selector[0], ">=", str(k), True)]
-            if self.rich and rng.random() < 0.35:
+            if self.rich and not (len(selector) > 2 and selector[2]) and rng.random() < 0.35:
                 # parameter-versus-parameter conditions with independent raw/calibrated selectors, nested both ways
                 other = rng.choice(["VERSION", "TYPE", "SEQ_FLGS", "SRC_SEQ_CTR"])
                 pp = lambda: c06.cond_sx(selector[0], rng.choice(["==", "!=", "<", ">="]), other, None,  # noqa: E731
